@@ -229,7 +229,7 @@ def main(tier):
         ck.extra.setdefault("code_reached", {}).update({k: v for k, v in o.get("reached", {}).items() if k.startswith("jaxley")})
     for can, oc in zip(CANARIES_T + CANARIES_S, outs[len(chunks):] + outs_s[1:]):
         ref = oc[0] == "ok" and not oc[1]["error"] and any(r["status"] != "proved" for r in oc[1]["results"])
-        ck.canaries.append((f"{can[0]}: {can[2][:50]!r} -> {can[3][:50]!r}", ref))
+        ck.canary(f"{can[0]}: {can[2][:50]!r} -> {can[3][:50]!r}", ref, oc)
     for f in ("jaxley.integrate.integrate", "jaxley.integrate.add_stimuli", "jaxley.integrate.add_clamps", "jaxley.integrate.build_init_and_step_fn",
               "jaxley.utils.jax_utils.nested_checkpoint_scan", "jaxley.modules.base.Module.step", "jaxley.modules.base.Module.get_all_states",
               "jaxley.stimulus.step_current", "jaxley.stimulus.datapoint_to_step_currents"):
